@@ -1,4 +1,4 @@
-// The four out-of-line symbols of common/alog.cpp that fs/subfs.cpp and fs/path.cpp reference.
+// The out-of-line symbols of common/alog.cpp that fs/subfs.cpp and fs/path.cpp reference.
 // The real alog.cpp drags in the whole thread runtime; the harness silences logging (log_level
 // above every level, so LogBuilder never formats anything) and only needs these to link.
 // PathCat's behaviour does not depend on them: LOG_ERROR_RETURN(0, , ...) logs and returns.
@@ -7,3 +7,4 @@ ALogLogger default_logger {nullptr, ALOG_AUDIT + 10};
 LogBuffer& operator << (LogBuffer& log, const Prologue&) { return log; }
 LogBuffer& operator << (LogBuffer& log, ERRNO) { return log; }
 void LogFormatter::put_integer_hbo(ALogBuffer&, ALogInteger) { }
+void LogFormatter::put_integer(ALogBuffer&, uint64_t) { }
